@@ -100,6 +100,7 @@ Proof.
       { destruct (le_lt_dec NS s) as [L|L]; [|exact L]. rewrite (H s L) in G. cbn in G. discriminate. }
       apply some_inj in Hl; subst st'; intros s' Hs'; rst; apply out_upd; assumption.
     + destruct (is_nil _); [|discriminate]. apply some_inj in Hl. subst st'. exact H.
+  - destruct (wpc st); [|discriminate]. apply some_inj in Hl. subst st'. exact H.
 Qed.
 
 Lemma out_reachable : forall st, reachable k start st -> Out st.
@@ -244,6 +245,7 @@ Proof.
     + destruct (is_nil _); [|discriminate]. apply some_inj in Hl. subst st'.
       destruct (same_lists st (set_rpc st RIdle) ltac:(intro s0; rst; split; reflexivity)) as [F1 F2].
       rst. unfold rph in *. rst. rewrite Hrp, F1, F2 in *. split; [lia|reflexivity].
+  - contradiction.
 Qed.
 
 Definition no_ticket (l : label) : bool := match l with PutTicket => false | _ => true end.
